@@ -101,6 +101,18 @@ NEEDS = {
  'C15-H': ('shutdown order by a breadth-first walk', 'a module reached through two attachment paths of different length', 'strengthened: two attachments per module (out-degree 2 graphs) added'),
  'C18-G': ('generated float write returns the value of the requested index', 'a driver whose index write returns another index than requested', 'caught at once'),
  'C18-H': ('insideRW guard as a context manager without try/finally', 'a struct write failing inside a member, then a single member write', 'caught at once'),
+ 'C01-I': ('IntRange builds its result from the float', 'integers beyond 2**53 with limits wide enough to admit them', 'strengthened: wide concrete integer ranges added (the symbolic limits made the harness itself fail under this change); runner gives up early when a change breaks the harnesses wholesale'),
+ 'C01-J': ('StructOf.validate skips members equal to the previous value', 'a struct with an enum member, previous holding member k, candidate k plus a fraction passed to validate directly', 'strengthened: direct validate(value, previous) path with enum members added'),
+ 'C02-I': ('ScaledInteger caches 1/scale at construction', 'the scale changed after construction (setProperty, forwarded by an array, Param(scale=...))', 'strengthened: rescaled scenario added'),
+ 'C02-J': ('IntRange takes the integer from the float', 'integers beyond 2**53', 'caught at once'),
+ 'C03-I': ('IntRange.compatible(EnumType) counts members instead of probing', 'an enum with holes inside the range and extra members outside', 'strengthened: such an enum added to the pairings'),
+ 'C03-J': ('StructOf caches the members part of its datainfo', 'export, then a nested member property changes, then export / rebuild / copy', 'strengthened: export-mutate-export scenario added'),
+ 'C14-I': ('module status derived from the cleanup reason instead of the pending request', 'a cleanup lasting more than one cycle and a request of the other kind arriving during it', 'caught at once'),
+ 'C14-J': ('second stop dropped while a stop-caused cleanup is running', 'stop, start and stop again during a multi-cycle cleanup', 'caught at once'),
+ 'C17-I': ('stored falsy value replaced by the default on load', 'last saved value 0 / False / empty', 'caught at once'),
+ 'C17-J': ('temp file renamed over the target before it is closed', 'a crash or an I/O error between rename and close with buffered file data', 'strengthened: buffered file model (data reaches the disk at close) added as a selector'),
+ 'C20-I': ('reset of a connection skipped unless it is in a logging set that a single-module off empties', 'logging A on, logging B off, then *IDN? or disconnect', 'caught at once'),
+ 'C20-J': ('rotation keeps a cached file list', 'repeated rotations to the same file name after days without a record', 'strengthened: same-day rollovers added'),
 }
 
 
